@@ -433,19 +433,19 @@ func (m *marshalledArea) References() []b6.Reference {
 	return references
 }
 
-func (m marshalledArea) Reference(i int) b6.Reference {
+func (m *marshalledArea) Reference(i int) b6.Reference {
 	panic("not implemented")
 }
 
-func (m marshalledArea) Polyline() *s2.Polyline {
+func (m *marshalledArea) Polyline() *s2.Polyline {
 	panic("not implemented")
 }
 
-func (m marshalledArea) GeometryLen() int {
+func (m *marshalledArea) GeometryLen() int {
 	panic("not implemented")
 }
 
-func (m marshalledArea) PointAt(i int) s2.Point {
+func (m *marshalledArea) PointAt(i int) s2.Point {
 	panic("not implemented")
 }
 
